@@ -53,6 +53,7 @@ VarCaptureMatrix(fu, src) == [i \in 1..D0 |-> [k \in 1..Len(src) |-> TrapzUnit2(
 InitEst == [K |-> RDiag(Vec(D0, R1)), kshape |-> "1", bl |-> Vec(D0, R0), blshape |-> "1",
             reg |-> FALSE, A |-> <<>>, lb |-> <<>>, ub |-> <<>>,
             treg |-> FALSE, tB |-> <<>>, W |-> Vec(D0, 1), fitted |-> FALSE, nfit |-> 0,
+            src |-> 0,        \* index of the registered source set in SrcPool (0 = none)
             fu |-> <<>>,      \* registered filter uncertainty; <<>> = None
             Eps |-> <<>>]     \* capture variance per filter and source; <<>> = 'heteroscedastic' (or no system yet)
 
@@ -69,17 +70,18 @@ RegisterSystem(k, bk) ==
       lb == IF bp[1] = <<>> THEN Vec(n, R0) ELSE bp[1]
       ub == IF bp[2] = <<>> THEN Vec(n, <<INF, 1>>) ELSE bp[2]
   IN /\ (bp[1] = <<>> \/ Len(bp[1]) = n) /\ (bp[2] = <<>> \/ Len(bp[2]) = n)
-     /\ est' = [est EXCEPT !.reg = TRUE, !.A = CaptureMatrix(src), !.lb = lb, !.ub = ub,
+     /\ est' = [est EXCEPT !.reg = TRUE, !.A = CaptureMatrix(src), !.lb = lb, !.ub = ub, !.src = k,
                            !.Eps = IF est.fu = <<>> THEN <<>> ELSE VarCaptureMatrix(est.fu, src)]
      /\ Log(Act("register_system", k * 100 + bk, FALSE, FALSE))
 
-(* Deviation named, not idealised: the capture variance Epsilon is computed once,  *)
-(* by register_system, from the uncertainty registered AT THAT TIME.  Registering   *)
-(* an uncertainty afterwards changes uncertainty_capture() at once but leaves the   *)
-(* system's Epsilon (and with it minimize_variance) as it was until the system is   *)
-(* registered again.  k = 0 registers None.                                         *)
+(* The capture variance Epsilon of the system is derived from the registered uncertainty: registering a  *)
+(* new uncertainty re-derives it for an already registered system (an explicitly passed Epsilon is not     *)
+(* modelled).  k = 0 registers None.  [The code used to compute Epsilon once, in register_system, from the  *)
+(* uncertainty registered at that time: finding D24, fixed.]                                               *)
 RegisterUncertainty(k) ==
-  /\ est' = [est EXCEPT !.fu = IF k = 0 THEN <<>> ELSE UncPool[k]]
+  /\ LET fu == IF k = 0 THEN <<>> ELSE UncPool[k]
+     IN est' = [est EXCEPT !.fu = fu,
+                           !.Eps = IF ~est.reg \/ fu = <<>> THEN <<>> ELSE VarCaptureMatrix(fu, SrcPool[est.src])]
   /\ Log(Act("register_uncertainty", k, FALSE, FALSE))
 
 RegisterBounds(bk) ==
@@ -237,13 +239,13 @@ FrameOK ==
   [][LET a == hist'[Len(hist')]
      IN hist' # hist =>
         /\ (a.op \in {"register_adaptation", "register_background_adaptation", "register_system_adaptation"}
-              => \A f \in {"bl", "blshape", "reg", "A", "lb", "ub", "treg", "tB", "W", "fitted", "nfit", "fu", "Eps"} : ~Wrote(f))
-        /\ (a.op = "register_baseline" => \A f \in {"K", "kshape", "reg", "A", "lb", "ub", "treg", "tB", "W", "fitted", "nfit", "fu", "Eps"} : ~Wrote(f))
-        /\ (a.op = "register_bounds" => \A f \in {"K", "kshape", "bl", "blshape", "reg", "A", "treg", "tB", "W", "fitted", "nfit", "fu", "Eps"} : ~Wrote(f))
+              => \A f \in {"bl", "blshape", "reg", "A", "lb", "ub", "treg", "tB", "W", "fitted", "nfit", "fu", "Eps", "src"} : ~Wrote(f))
+        /\ (a.op = "register_baseline" => \A f \in {"K", "kshape", "reg", "A", "lb", "ub", "treg", "tB", "W", "fitted", "nfit", "fu", "Eps", "src"} : ~Wrote(f))
+        /\ (a.op = "register_bounds" => \A f \in {"K", "kshape", "bl", "blshape", "reg", "A", "treg", "tB", "W", "fitted", "nfit", "fu", "Eps", "src"} : ~Wrote(f))
         /\ (a.op = "register_system" => \A f \in {"K", "kshape", "bl", "blshape", "treg", "tB", "W", "fitted", "nfit", "fu"} : ~Wrote(f))
-        /\ (a.op = "register_targets" => \A f \in {"K", "kshape", "bl", "blshape", "reg", "A", "lb", "ub", "fu", "Eps"} : ~Wrote(f))
-        /\ (a.op = "register_uncertainty" => \A f \in {"K", "kshape", "bl", "blshape", "reg", "A", "lb", "ub", "treg", "tB", "W", "fitted", "nfit", "Eps"} : ~Wrote(f))
-        /\ (a.op = "fit" => \A f \in {"K", "kshape", "bl", "blshape", "reg", "A", "lb", "ub", "treg", "tB", "W", "fu", "Eps"} : ~Wrote(f))
+        /\ (a.op = "register_targets" => \A f \in {"K", "kshape", "bl", "blshape", "reg", "A", "lb", "ub", "fu", "Eps", "src"} : ~Wrote(f))
+        /\ (a.op = "register_uncertainty" => \A f \in {"K", "kshape", "bl", "blshape", "reg", "A", "lb", "ub", "treg", "tB", "W", "fitted", "nfit", "src"} : ~Wrote(f))
+        /\ (a.op = "fit" => \A f \in {"K", "kshape", "bl", "blshape", "reg", "A", "lb", "ub", "treg", "tB", "W", "fu", "Eps", "src"} : ~Wrote(f))
     ]_evars
 (* after adapting to a background (baseline included) its relative capture is 1     *)
 AdaptedBackgroundIsOne ==
@@ -251,13 +253,10 @@ AdaptedBackgroundIsOne ==
      IN (hist' # hist /\ a.op = "register_background_adaptation" /\ ~a.add /\ a.ab)
           => RelOf(est', RVec(SpecCapture(BgPool[a.k]))) = Vec(D0, R1)
     ]_evars
-(* the system's Epsilon is the variance capture of its sources under the uncertainty  *)
-(* that was registered when the system was registered (or 'heteroscedastic')          *)
-EpsilonFromRegistrationTime ==
-  [][LET a == hist'[Len(hist')]
-     IN (hist' # hist /\ a.op = "register_system")
-          => est'.Eps = IF est.fu = <<>> THEN <<>> ELSE VarCaptureMatrix(est.fu, SrcPool[a.k \div 100])
-    ]_evars
+(* the system's Epsilon is at all times the variance capture of its sources under the currently          *)
+(* registered uncertainty ('heteroscedastic' = <<>> when there is none): order of registration is immaterial *)
+EpsilonIsDerived ==
+  est.reg => est.Eps = IF est.fu = <<>> THEN <<>> ELSE VarCaptureMatrix(est.fu, SrcPool[est.src])
 AdaptedSystemIsOne ==
   [][LET a == hist'[Len(hist')]
      IN (hist' # hist /\ a.op = "register_system_adaptation" /\ ~a.add /\ a.ab)
